@@ -282,9 +282,14 @@ class Replacer:
 
     def __call__(self, uri):
         scheme, location, path, query, fragment = urllib.parse.urlsplit(uri)
-        if scheme or location or path.startswith('/') or not path:
+        if scheme or location or not path:
             # keep anything absolute (and references to the document itself)
             return uri
+        if path.startswith('/'):
+            # absolute path: on the host the sheet was imported from, if any
+            return urllib.parse.urlunsplit(
+                (self.scheme, self.location, path, query, fragment)
+            )
 
         # path is part of a URL already: no further quoting, "/" separated
         combined = posixpath.normpath(posixpath.join(self.base, path))
